@@ -225,7 +225,8 @@ func (c *Check) Explore(job *interp.Job, extra func(pr *interp.PathResult)) inte
 				w = pr.Witness
 			}
 			c.addFinding(&Finding{Signature: sig, What: fmt.Sprintf("assertion %s violated (%s) %s", f.ID, f.Site, f.Msg), Job: job, Witness: w, Input: in, Kind: "assert", AssertID: f.ID})
-			if f.Witness != nil {
+			if job.NoReplay {
+			} else if f.Witness != nil {
 				c.cases = append(c.cases, NativeCase{ID: len(c.cases), Entry: job.Entry, Params: job.Params, Witness: f.Witness})
 				c.caseMeta = append(c.caseMeta, caseMeta{outcome: -1, expectID: f.ID, sig: sig, job: job})
 			} else if pr.Witness != nil {
@@ -273,7 +274,7 @@ func hangClass(msg string) string {
 }
 
 func (c *Check) addCase(job *interp.Job, pr *interp.PathResult, expect, sig string) {
-	if pr.Witness == nil {
+	if pr.Witness == nil || job.NoReplay {
 		return
 	}
 	c.cases = append(c.cases, NativeCase{ID: len(c.cases), Entry: job.Entry, Params: job.Params, Witness: pr.Witness})
@@ -378,13 +379,6 @@ func (c *Check) Finish() int {
 		c.writeEvidence(wall, 0, "engine/native mismatch: no verdict")
 		return 2
 	}
-	if len(c.Vacuous) > 0 {
-		for _, v := range c.Vacuous {
-			fmt.Printf("VACUOUS: %s\n", v)
-		}
-		c.writeEvidence(wall, 0, "vacuous harness: no verdict")
-		return 2
-	}
 	var sigs []string
 	for s := range c.findings {
 		sigs = append(sigs, s)
@@ -401,6 +395,13 @@ func (c *Check) Finish() int {
 		path := c.writeReplay(f)
 		fmt.Printf("VIOLATION property=%s replay=%s\n", c.ID, path)
 		fmt.Printf("  signature: %s\n  what: %s\n  input: %s\n  paths: %d\n", s, f.What, f.Input, f.Count)
+	}
+	if violations == 0 && len(c.Vacuous) > 0 {
+		for _, v := range c.Vacuous {
+			fmt.Printf("VACUOUS: %s\n", v)
+		}
+		c.writeEvidence(wall, 0, "vacuous harness: no verdict")
+		return 2
 	}
 	c.writeEvidence(wall, violations, "")
 	fmt.Printf("%s %s: %d path(s), %d fork(s), %d solver queries (%.1fs), %d domain decisions, %d native replays agree, %d inconclusive, %d violation signature(s), %.1fs\n",
@@ -517,4 +518,21 @@ func tmpl(segs ...string) string { return strings.Join(segs, "\x00") }
 
 func jobTmpl(entry, tag, t, ver string, fuel int64) *interp.Job {
 	return &interp.Job{Entry: entry, Tag: tag, Fuel: fuel, Params: map[string]interface{}{"tmpl": t, "ver": ver}}
+}
+
+// ExploreNeed explores job and records the harness as vacuous unless at least
+// one path reached every named Cover point (reachability witness).
+func (c *Check) ExploreNeed(job *interp.Job, covers ...string) interp.Stats {
+	seen := map[string]int{}
+	st := c.Explore(job, func(pr *interp.PathResult) {
+		for _, cv := range pr.Covers {
+			seen[cv]++
+		}
+	})
+	for _, cv := range covers {
+		if seen[cv] == 0 {
+			c.Vacuous = append(c.Vacuous, fmt.Sprintf("%s %v: no path reaches %q", job.Entry, job.Params, cv))
+		}
+	}
+	return st
 }
